@@ -204,7 +204,26 @@ def hXform (_which : Nat) : Handler := fun args impl => do
   if impl.find "faces_after" ≠ some (oFaces fs) then fails := fails ++ ["transform_touched_faces"]
   pure (model, fails)
 
+/-- `xformm pts faces matrix` : `Polyhedron::apply_matrix` is the full affine map, faces untouched -/
+def hXformM (_which : Nat) : Handler := fun args impl => do
+  let ((pts, fs, m), _) ← (do
+    let p ← listOf pt3; let f ← faces; let m ← mt4; pure (p, f, m) : P _).run args
+  let model : Res := [("apply_matrix", oList oPt3 (Mt4.applyMatrix pts m)), ("faces_after", oFaces fs)]
+  let mut fails : List String := []
+  let r ← impl.parse "apply_matrix" (listOf pt3)
+  -- written out entry by entry (column-major: x is column 0, w is the translation column)
+  let want (p : Pt3 Float) : Pt3 Float :=
+    ⟨m.x.x * p.x + m.y.x * p.y + m.z.x * p.z + m.w.x, m.x.y * p.x + m.y.y * p.y + m.z.y * p.z + m.w.y,
+     m.x.z * p.x + m.y.z * p.y + m.z.z * p.z + m.w.z⟩
+  let tol (p : Pt3 Float) : Float := F!(1e-12) * (F!(1.0) + p.x.abs + p.y.abs + p.z.abs) *
+    (F!(1.0) + m.x.x.abs + m.y.y.abs + m.z.z.abs + m.w.x.abs + m.w.y.abs + m.w.z.abs + m.x.y.abs + m.x.z.abs + m.y.x.abs + m.y.z.abs + m.z.x.abs + m.z.y.abs)
+  if r.length ≠ pts.length || !((pts.zip r).all fun (p, q) =>
+      let w := want p; (q.x - w.x).abs ≤ tol p && (q.y - w.y).abs ≤ tol p && (q.z - w.z).abs ≤ tol p) then
+    fails := fails ++ ["apply_matrix_is_not_the_full_affine_map"]
+  if impl.find "faces_after" ≠ some (oFaces fs) then fails := fails ++ ["transform_touched_faces"]
+  pure (model, fails)
+
 def handlers (which : Nat) : List (String × Handler) :=
   [("linear_extrude", hLinear which), ("loft", hLoft which), ("cylinder", hCylinder which),
-   ("rotate_extrude", hRevolve which), ("sweep", hSweep which), ("xform", hXform which)]
+   ("rotate_extrude", hRevolve which), ("sweep", hSweep which), ("xform", hXform which), ("xformm", hXformM which)]
 end ScadVerif.Driver.C04
